@@ -327,7 +327,9 @@ def history_totals(res, drv, r, tier):
                 for meas, given, want in calls:
                     with contextlib.redirect_stdout(io.StringIO()), np.errstate(all='ignore'):
                         try:
-                            m = eng.estimate(list(meas), total=given) if cls is LocalInference else eng.estimate(list(meas), total=given, options={})
+                            # FactoredInference.estimate has a mutable default `options={}` shared by every call in the process: half of the histories
+                            # rely on it (the way every mechanism calls estimate), half pass their own dict
+                            m = eng.estimate(list(meas), total=given) if (cls is LocalInference or warm) else eng.estimate(list(meas), total=given, options={})
                         except Exception as e:
                             res.violation('failing-input', f'{cls.__name__}(warm_start={warm}).estimate raises {type(e).__name__} in a call history', {'request': {'history': 'see c09.history_totals'}}, key='total:history-raises')
                             break
